@@ -243,6 +243,11 @@ def rotation_fee_matrix():
 @reg("C09")
 def c09():
     extra, v = cryptocheck.keyset_derivation("C09")
+    # the lifecycle at storage-call level (KeysetSteps.tla), exhaustive with crashes and a failing call
+    import steps
+    from core import rundir, spec_copy
+    extra = dict(extra or {})
+    extra["keyset_steps_model"] = steps.keyset_model(spec_copy(rundir("C09_ks_%s" % tier())))
     rc = minthist.check("C09", fees=(0, 100, 1000, 2500), extra_cov=extra, extra_histories=rotation_fee_matrix())
     return 1 if (v or rc) else 0
 
